@@ -179,7 +179,7 @@ Definition integrate (msgs : list str) (vs : list raw) (prefix : str)
     | None => vs    (* out of fuel: unreachable, see above *)
     | Some vs1 =>
         let vs2 := match vs1 with
-                   | [_] => vs1 ++ [filler p dstyle drstyle]
+                   | [_] => vs1 ++ [filler prefix dstyle drstyle]
                    | _ => vs1
                    end in
         sort_by_display vs2
